@@ -1,5 +1,49 @@
+(* C02 — code quoted in a diagnostic is the user's code and is valid Python.
+   The model (Lib/Stringify.v) is tied to refurb.checks.common.stringify by the
+   correspondence check on every run. *)
 From Lib Require Import Base PyAst Equiv Stringify.
+From P Require Import C02Escapes.
 Open Scope list_scope.
+
+(* escapes: for every string (any code points) the quoted literal reads back as that
+   string under Python's rules for a double-quoted literal *)
+Theorem str_literal_roundtrip :
+  forall s, py_unescape (List.length (str_body s)) (str_body s) = Some s.
+Proof. exact str_literal_roundtrip_all. Qed.
+Print Assumptions str_literal_roundtrip.
+
+(* the only placeholder is `x`, and it appears exactly where a node cannot be rendered *)
 Theorem placeholder_is_x : forall c l t, stringify (EOpaque c l t) = "x"%string.
 Proof. reflexivity. Qed.
 Print Assumptions placeholder_is_x.
+
+(* parentheses: an operand is wrapped exactly when it binds less tightly than required *)
+Theorem wrap_iff : forall e p t,
+  wrap e p t = (if Nat.ltb (precedence e) p then "(" ++ t ++ ")" else t)%string.
+Proof. reflexivity. Qed.
+Print Assumptions wrap_iff.
+
+(* the shapes that were quoted wrongly before the repair, on the model *)
+Definition nm (s : string) := EName s s.
+Example witnesses_fixed :
+  stringify (EIndex (EOp "+" (nm "a") (nm "b")) (ESlice None None None)) = "(a + b)[:]"%string /\
+  stringify (EUnary "-" (EOp "+" (nm "a") (nm "b"))) = "-(a + b)"%string /\
+  stringify (EMember (EOp "+" (nm "a") (nm "b")) "real" "") = "(a + b).real"%string /\
+  stringify (EOp "*" (EOp "+" (nm "a") (nm "b")) (nm "c")) = "(a + b) * c"%string /\
+  stringify (EOp "-" (nm "a") (EOp "-" (nm "b") (nm "c"))) = "a - (b - c)"%string /\
+  stringify (EOp "**" (EUnary "-" (nm "a")) (nm "b")) = "(-a) ** b"%string /\
+  stringify (EOp "**" (nm "a") (EUnary "-" (nm "b"))) = "a ** -b"%string /\
+  stringify (ECond (nm "d") (ECond (nm "b") (nm "a") (nm "c")) (nm "n")) = "(a if b else c) if d else n"%string /\
+  stringify (EIndex (nm "xs") (ETuple [nm "a"; ESlice (Some (EInt 1)) None None])) = "xs[a, 1:]"%string /\
+  stringify (EMember (EInt 1) "real" "") = "(1).real"%string /\
+  stringify (EList [EWalrus (nm "w") (nm "a")]) = "[(w := a)]"%string /\
+  stringify (ECmp ["<"] [ECmp ["<"] [nm "a"; nm "b"]; nm "c"]) = "(a < b) < c"%string.
+Proof. vm_compute. repeat split; reflexivity. Qed.
+Print Assumptions witnesses_fixed.
+
+(* still wrong on the current tree (open finding): the callee of a call is never wrapped *)
+Example callee_not_wrapped :
+  stringify (ECall (ELambda [(ARG_POS, Some "p")] (Some (nm "p"))) [(ARG_POS, None, EInt 3)])
+  = "lambda p: p(3)"%string.
+Proof. vm_compute. reflexivity. Qed.
+Print Assumptions callee_not_wrapped.
